@@ -113,7 +113,7 @@ func (x *Exec) unsupported(st *State, why string) {
 	// established on the unchanged tree and cannot be established now
 	if st != nil && strings.HasPrefix(why, "spec \"") && len(st.frames) > 0 && x.contract != nil && !x.inSpecFailure {
 		x.inSpecFailure = true
-		x.oblige(st, "contract", "contract clause can be evaluated against the current source: "+why, TFalse, token.NoPos, x.contract.Props)
+		x.oblige(st, "contract", "contract clause can be evaluated against the current source: "+why, TFalse, token.NoPos, x.contract.allProps())
 		x.inSpecFailure = false
 		st.dead = true
 		return
